@@ -19,13 +19,49 @@ def gen(tier, rng):
         H.append(['new eHOME=2f68', 'write_lines ' + vlib.hx('/f') + ' l:' + ','.join(vlib.hx(x)[1:] for x in ls), 'read_lines ' + vlib.hx('/f'), 'read ' + vlib.hx('/f'),
                   'append_lines ' + vlib.hx('/f') + ' l:' + ','.join(vlib.hx(x)[1:] for x in ls), 'read_lines ' + vlib.hx('/f'), 'copy ' + vlib.hx('/f') + ' ' + vlib.hx('/g'),
                   'append_all ' + vlib.hx('/f') + ' ' + vlib.hx('Z'), 'read ' + vlib.hx('/g'), 'move_p ' + vlib.hx('/g') + ' ' + vlib.hx('/h'), 'write_all ' + vlib.hx('/f') + ' ' + vlib.hx(''), 'read ' + vlib.hx('/h')])
+    # aliasing battery: write / move / copy chains followed by handle-based and direct writes to each
+    # file, then every file is read back (a copied or moved file must not alias its source)
+    names = ['/a', '/b', '/c']
+    for _ in range(150 if tier == 'quick' else 4000):
+        h = ['new eHOME=2f68', 'write_all ' + vlib.hx('/a') + ' ' + vlib.hx('héllo' + chr(10))]
+        hid = 0
+        for _k in range(rng.randint(3, 7)):
+            x, y = rng.choice(names), rng.choice(names)
+            k = rng.random()
+            if k < 0.25:
+                h.append(f'move_p {vlib.hx(x)} {vlib.hx(y)}')
+            elif k < 0.5:
+                h.append(f'copy {vlib.hx(x)} {vlib.hx(y)}')
+            elif k < 0.75:
+                hid += 1
+                chunk = vlib.hx(rng.choice(['W', 'wörld' + chr(10), '']))
+                opener = rng.choice(['h_append', 'h_write'])
+                h += [f'{opener} {hid} {vlib.hx(x)}', f'h_put {hid} {chunk}', rng.choice([f'h_flush {hid}', 'cwd']), f'h_drop {hid}']
+            else:
+                wop = rng.choice(['append_all', 'write_all'])
+                h.append(f'{wop} {vlib.hx(x)} {vlib.hx(rng.choice(["Z", ""]))}')
+        h += [f'read {vlib.hx(n)}' for n in names]
+        H.append(h)
+    # exhaustive part of the aliasing battery: every chain of two move/copy steps over three names,
+    # then a handle-based append (and a handle-based write) to each file, then all files read back
+    import itertools
+    steps = [f'{o} {vlib.hx(x)} {vlib.hx(y)}' for o in ('move_p', 'copy') for x in names for y in names if x != y]
+    for s1, s2 in itertools.product(steps, repeat=2):
+        for tgt in names:
+            for opener in ('h_append', 'h_write'):
+                if tier == 'quick' and opener == 'h_write' and rng.random() < 0.7:
+                    continue
+                H.append(['new eHOME=2f68', 'write_all ' + vlib.hx('/a') + ' ' + vlib.hx('one'), s1, s2, f'{opener} 1 {vlib.hx(tgt)}', 'h_put 1 ' + vlib.hx('TWO'), 'h_drop 1'] + [f'read {vlib.hx(n)}' for n in names])
     return H, dict(kind='content-heavy random histories over 3 files (write/append/lines/copy/move/handles with flush and drop points) + line round-trip scripts', histories=len(H), exhaustive=False)
 
 
 LINES = {}
 
 
-def judge(req, impl, f, prev):
+def judge(req, impl, f, prev, hi=None, i=None):
+    if LINES.get('hi') != hi:
+        LINES.clear()
+        LINES['hi'] = hi
     j = c01.judge(req, impl, f, prev)
     if j:
         return j
@@ -35,10 +71,11 @@ def judge(req, impl, f, prev):
     if t[0] == 'write_lines' and io.startswith('ok'):
         ls = [x for x in t[2][2:].split(',')] if t[2] != 'l:' else []
         LINES['last'] = ls
+        LINES['path'] = t[1]
     elif t[0] == 'read_lines' and io.startswith('ok l:') and LINES.get('last') is not None:
         ls = LINES.pop('last')
         clean = all(x and '0a' not in [x[i:i + 2] for i in range(0, len(x), 2)] and not x.endswith('0d') for x in ls)
-        if clean and ls and io[5:].split(',') != ls:
+        if clean and ls and io[5:].split(',') != ls and req.split(' ')[1] == LINES.get('path'):
             return ('ok l:' + ','.join(ls), 'read_lines(write_lines(ls)) != ls')
     else:
         LINES.pop('last', None)
@@ -46,7 +83,7 @@ def judge(req, impl, f, prev):
 
 
 SPEC = dict(
-    prop='C06', lean_mod='Rivia.Props.C06', gen=gen, judge=judge,
+    prop='C06', lean_mod='Rivia.Props.C06', gen=gen, judge=judge, judge_ctx=True,
     foreign_classes=('chmod_zero', 'listing_includes_links', 'sym_kind_specific_clauses', 'sym_malformed', 'moved_link_rel_stale'),
     rule='content-heavy random histories over a handful of files: write_all / append_all / write_lines / append_line(s) / handle write+append with flushes and drops at arbitrary points / copy / move_p / reads, '
          'data from {empty, ASCII, multi-byte, invalid UTF-8, embedded \\n and \\r\\n, 2 KiB}; judge = byte-vector reference (TreeFs node data): write replaces, append extends, line helpers add one newline per line, '
